@@ -333,6 +333,27 @@ class Placement(Relation):
         ctx.check(same(arr(vals), gv_model(None), rt),
                   f'get_values {tag} | editing an earlier result changes a '
                   'later one')
+        # ---- the same mask object applied to ANOTHER image (a smaller crop,
+        # then a larger padded one): the results are those a fresh mask of
+        # the same weights and box gives - nothing carries over between images
+        from regions import RegionBoundingBox, RegionMask
+        if ny >= 2 and nx >= 2 and not isq:
+            others = [np.ascontiguousarray(raw[:ny - 1, :nx - 1]) + 1,
+                      np.pad(raw, ((0, 2), (0, 3)), mode='edge')]
+            for other in others:
+                fresh = RegionMask(weights.copy(),
+                                   RegionBoundingBox(x0, x1, y0, y1))
+                for nm, f in (('multiply', lambda m: m.multiply(
+                                   other, fill_value=fill)),
+                              ('cutout', lambda m: m.cutout(
+                                  other, fill_value=fill, copy=True)),
+                              ('get_values', lambda m: m.get_values(other))):
+                    a, b = f(mask), f(fresh)
+                    ctx.check((a is None) == (b is None) and (
+                        a is None or same(arr(a), arr(b))),
+                        f'{nm} {tag} | a mask object that was applied to '
+                        'another image before gives a different result than a '
+                        'fresh mask', f'image shape {other.shape}')
         # ---- inputs untouched
         ctx.check((raw.tobytes(), raw.dtype.str, raw.shape) == before,
                   'input image modified')
